@@ -71,7 +71,7 @@ def reset_peer_runs(ctx, n):
         g = i % 6
         b = port_base(g)
         up, px = b, b + 1
-        T = rng.choice([0, 20, 80])
+        T = rng.choice([0, 20, 80, 1100])       # 1100: the reset must not depend on the timeout being below a second
         stream = rng.choice(["upstream", "downstream"])
         payload = rng.choice([0, 1, 500, 65536])
         closer = rng.choice(["client", "upstream", "none"])
